@@ -19,12 +19,22 @@ const (
 	c19Min = -c19Max - 1
 )
 
+var c19Thorough bool
+
 func c19Domain() []int {
 	var d []int
-	for i := -8; i <= 8; i++ {
+	w := 8
+	if c19Thorough {
+		w = 40
+	}
+	for i := -w; i <= w; i++ {
 		d = append(d, i)
 	}
-	return append(d, c19Min, c19Min+1, c19Max-1, c19Max)
+	d = append(d, c19Min, c19Min+1, c19Max-1, c19Max)
+	if c19Thorough {
+		d = append(d, c19Min+2, c19Min+23, c19Max-2, c19Max-23, c19Max/2, c19Min/2)
+	}
+	return d
 }
 
 type nexter interface{ Next() interface{} }
@@ -162,6 +172,11 @@ func init() {
 }
 
 func c19Run(t *engine.T, shard string) {
+	c19Thorough = t.Thorough
+	maxLen, maxN := 40, 12
+	if t.Thorough {
+		maxLen, maxN = 120, 30
+	}
 	D := c19Domain()
 	switch {
 	case shard == "range":
@@ -289,8 +304,8 @@ func c19Run(t *engine.T, shard string) {
 		}
 	case strings.HasPrefix(shard, "groupBy:") && shard != "groupBy:errors":
 		kind := strings.TrimPrefix(shard, "groupBy:")
-		for L := 0; L <= 40; L++ {
-			for n := -1; n <= 12; n++ {
+		for L := 0; L <= maxLen; L++ {
+			for n := -1; n <= maxN; n++ {
 				for _, shape := range []string{"slice", "ptr-slice", "array", "ptr-array"} {
 					mk := func() interface{} {
 						sl := c19Slice(kind, L)
